@@ -156,6 +156,17 @@ def run_plan(out, tier, seed, pid, extra_traces_hook=None):
         else:
             mcs.append(fw.mc_run(f'{pid}:{name}', 'MC_Chunk', mcconf.chunk_cfg(**conf), expect_violation=expect,
                                  coverage=(tier == 'thorough' and expect is None)))
+    if pid == 'C03':
+        # function level: the okta with both buffers never decreases with the count (all totals up to the bound, all buffers 0..6)
+        from .. import fnjobs
+        mmax = 48 if tier == 'quick' else 160
+        jres = fnjobs.run_jobs([{'kind': 'c03mono', 'lo': a, 'hi': min(a + 15, mmax)} for a in range(1, mmax + 1, 16)])
+        for r in jres:
+            for clause, keys in r.items():
+                if keys:
+                    raise fw.Machinery(f'{clause} fails on the transcription for totals {keys[:5]}')
+        mcs.append({'name': 'C03:okta-monotone', 'module': 'FnTables', 'states': 2 * len(jres), 'transitions': len(jres), 'depth': 1, 'wall_s': 0,
+                    'violated': None, 'coverage': None, 'domain': f'all (n, m) with m <= {mmax}, buffers 0..6'})
     # ---------------- (B)/(C) scenarios through the real code ----------------
     descs, fam_counts, fam_totals = [], {}, {}
     for fname, gen, n in plan['families'][tier]:
